@@ -17,17 +17,477 @@ Definition stream_rel (R : frame -> frame -> Prop) (a b : list dev) : Prop :=
                       | DFrame f, DFrame g => R f g
                       | _, _ => False end) a b.
 
+(* ------------------------------------------------------------------ *)
+(* Generic list / grid facts                                           *)
+(* ------------------------------------------------------------------ *)
+
+Lemma gbuild_ext : forall h w (f g : nat -> nat -> Z),
+    (forall y x, (y < h)%nat -> (x < w)%nat -> f y x = g y x) ->
+    gbuild h w f = gbuild h w g.
+Proof.
+  intros h w f g H. unfold gbuild.
+  apply map_ext_in. intros y Hy. apply in_seq in Hy.
+  apply map_ext_in. intros x Hx. apply in_seq in Hx.
+  apply H; lia.
+Qed.
+
+Lemma gget_gbuild : forall h w (f : nat -> nat -> Z) y x,
+    (y < h)%nat -> (x < w)%nat -> gget (gbuild h w f) y x = f y x.
+Proof.
+  intros h w f y x Hy Hx. unfold gget, gbuild.
+  rewrite (nth_indep _ [] (map (fun x0 => f 0%nat x0) (seq 0 w))) by (rewrite map_length, seq_length; lia).
+  rewrite (map_nth (fun y0 => map (fun x0 => f y0 x0) (seq 0 w)) (seq 0 h) 0%nat y).
+  rewrite seq_nth by lia. cbn [Nat.add].
+  rewrite (nth_indep _ 0 (f y 0%nat)) by (rewrite map_length, seq_length; lia).
+  rewrite (map_nth (fun x0 => f y x0) (seq 0 w) 0%nat x).
+  rewrite seq_nth by lia. reflexivity.
+Qed.
+
+Lemma fold_left_ext_in : forall (A B : Type) (f g : A -> B -> A) (l : list B) (a : A),
+    (forall a x, In x l -> f a x = g a x) -> fold_left f l a = fold_left g l a.
+Proof.
+  intros A B f g l. induction l as [|x l IH]; intros a H; cbn [fold_left]; [reflexivity|].
+  rewrite (H a x) by (left; reflexivity). apply IH. intros a' x' Hin. apply H. right; exact Hin.
+Qed.
+
+Lemma existsb_ext_in : forall (A : Type) (f g : A -> bool) (l : list A),
+    (forall x, In x l -> f x = g x) -> existsb f l = existsb g l.
+Proof.
+  intros A f g l. induction l as [|x l IH]; intros H; cbn [existsb]; [reflexivity|].
+  rewrite (H x) by (left; reflexivity). f_equal. apply IH. intros x' Hin. apply H. right; exact Hin.
+Qed.
+
+Lemma interior_bounds : forall c y x, interior c y x = true ->
+    (d_edge c <= y /\ y < d_h c - d_edge c /\ d_edge c <= x /\ x < d_w c - d_edge c)%nat.
+Proof.
+  intros c y x H. unfold interior in H.
+  apply andb_prop in H. destruct H as [H H4].
+  apply andb_prop in H. destruct H as [H H3].
+  apply andb_prop in H. destruct H as [H1 H2].
+  apply Nat.leb_le in H1. apply Nat.ltb_lt in H2. apply Nat.leb_le in H3. apply Nat.ltb_lt in H4.
+  lia.
+Qed.
+
+Lemma interior_intro : forall c y x,
+    (d_edge c <= y /\ y < d_h c - d_edge c /\ d_edge c <= x /\ x < d_w c - d_edge c)%nat ->
+    interior c y x = true.
+Proof.
+  intros c y x (H1 & H2 & H3 & H4). unfold interior.
+  apply Nat.leb_le in H1. apply Nat.ltb_lt in H2. apply Nat.leb_le in H3. apply Nat.ltb_lt in H4.
+  rewrite H1, H2, H3, H4. reflexivity.
+Qed.
+
+Lemma in_icoords : forall c yx, In yx (icoords c) -> interior c (fst yx) (snd yx) = true.
+Proof.
+  intros c yx H. unfold icoords in H.
+  apply in_flat_map in H. destruct H as (y & Hy & H).
+  apply in_map_iff in H. destruct H as (x & Heq & Hx). subst yx. cbn [fst snd].
+  apply in_seq in Hy. apply in_seq in Hx. apply interior_intro. lia.
+Qed.
+
+(* the interior is not empty *)
+Definition nonempty (c : dcfg) : Prop := (2 * d_edge c < d_w c)%nat /\ (2 * d_edge c < d_h c)%nat.
+
+Lemma near_interior : forall c y x, nonempty c -> interior c (near_y c y) (near_x c x) = true.
+Proof.
+  intros c y x [Hw Hh]. apply interior_intro. unfold near_y, near_x, clampn. lia.
+Qed.
+
+Lemma near_id : forall c y x, interior c y x = true -> near_y c y = y /\ near_x c x = x.
+Proof.
+  intros c y x H. apply interior_bounds in H. unfold near_y, near_x, clampn. lia.
+Qed.
+
+(* ------------------------------------------------------------------ *)
+(* Rings whose slots are pairwise related                              *)
+(* ------------------------------------------------------------------ *)
+
+Section RingRel.
+  Context {A : Type}.
+  Variable P : A -> A -> Prop.
+
+  Definition ring_rel (r1 r2 : ring A) : Prop :=
+    size r1 = size r2 /\ cur r1 = cur r2 /\ full r1 = full r2 /\ oldest r1 = oldest r2 /\
+    Forall2 P (slots r1) (slots r2).
+
+  Lemma upd_rel : forall l1 l2 n v1 v2,
+      Forall2 P l1 l2 -> P v1 v2 -> Forall2 P (upd l1 n v1) (upd l2 n v2).
+  Proof.
+    intros l1 l2 n v1 v2 H. revert n. induction H as [|a b l1 l2 Hab Hl IH]; intros n Hv.
+    - destruct n; constructor.
+    - destruct n as [|n]; cbn [upd]; constructor; auto.
+  Qed.
+
+  Lemma nth_rel : forall l1 l2 n d1 d2,
+      Forall2 P l1 l2 -> P d1 d2 -> P (nth n l1 d1) (nth n l2 d2).
+  Proof.
+    intros l1 l2 n d1 d2 H. revert n. induction H as [|a b l1 l2 Hab Hl IH]; intros n Hd.
+    - destruct n; exact Hd.
+    - destruct n as [|n]; cbn [nth]; auto.
+  Qed.
+
+  Lemma repeat_rel : forall a b n, P a b -> Forall2 P (repeat a n) (repeat b n).
+  Proof. intros a b n H. induction n; cbn [repeat]; constructor; auto. Qed.
+
+  Lemma new_ring_rel : forall sz a b, P a b -> ring_rel (new_ring sz a) (new_ring sz b).
+  Proof.
+    intros sz a b H. unfold ring_rel, new_ring. cbn [size cur full oldest slots].
+    repeat split. apply repeat_rel; exact H.
+  Qed.
+
+  Lemma put_rel : forall r1 r2 v1 v2, ring_rel r1 r2 -> P v1 v2 -> ring_rel (put r1 v1) (put r2 v2).
+  Proof.
+    intros r1 r2 v1 v2 (Hs & Hc & Hf & Ho & Hl) Hv. unfold ring_rel, put.
+    cbn [size cur full oldest slots]. repeat split; try assumption.
+    rewrite Hc. apply upd_rel; assumption.
+  Qed.
+
+  Lemma move_rel : forall r1 r2, ring_rel r1 r2 -> ring_rel (move r1) (move r2).
+  Proof.
+    intros r1 r2 (Hs & Hc & Hf & Ho & Hl). unfold ring_rel, move, next_index_after.
+    cbn [size cur full oldest slots]. rewrite Hs, Hc, Hf, Ho. repeat split; assumption.
+  Qed.
+
+  Lemma set_as_oldest_rel : forall r1 r2, ring_rel r1 r2 -> ring_rel (set_as_oldest r1) (set_as_oldest r2).
+  Proof.
+    intros r1 r2 (Hs & Hc & Hf & Ho & Hl). unfold ring_rel, set_as_oldest.
+    cbn [size cur full oldest slots]. repeat split; assumption.
+  Qed.
+
+  Lemma reset_rel : forall r1 r2, ring_rel r1 r2 -> ring_rel (reset r1) (reset r2).
+  Proof.
+    intros r1 r2 (Hs & Hc & Hf & Ho & Hl). unfold ring_rel, reset.
+    cbn [size cur full oldest slots]. repeat split; assumption.
+  Qed.
+
+  Lemma oldest_slot_rel : forall r1 r2 d1 d2,
+      ring_rel r1 r2 -> P d1 d2 -> P (oldest_slot d1 r1) (oldest_slot d2 r2).
+  Proof.
+    intros r1 r2 d1 d2 (Hs & Hc & Hf & Ho & Hl) Hd. unfold oldest_slot, next_index_after, zth.
+    rewrite Hs, Hc, Ho. destruct (negb (oldest r2 =? NO_OLDEST_SET)); apply nth_rel; assumption.
+  Qed.
+End RingRel.
+
+(* ------------------------------------------------------------------ *)
+(* Detect, split into the background/threshold part and the rest       *)
+(* ------------------------------------------------------------------ *)
+
+Definition pre (c : dcfg) (s : dstate) (f : frame) : grid * list (list f32) * Z * Z :=
+  if d_dynamic c && negb (affected_by_ffc f) then
+    let '(bg', wts', avg, changed) := update_background c s f (s_affected s) in
+    let n := s_bgframes s + 1 in
+    (bg', wts', n, if changed && (d_preview c <? n) then calc_threshold c avg else s_thresh s)
+  else (s_bg s, s_wts s, s_bgframes s, s_thresh s).
+
+Definition post (c : dcfg) (s : dstate) (f : frame)
+           (bg1 : grid) (wts1 : list (list f32)) (bgframes1 thresh1 : Z) : dstate * bool :=
+  let prev_ffc := s_affected s in
+  let aff := affected_by_ffc f in
+  let fl1 := put (s_floored s) f in
+  let cmp := oldest_slot (blank_frame c) fl1 in
+  let dg := diff_grid c thresh1 (f_pix f) (f_pix cmp) in
+  let df1 := put (s_diffs s) dg in
+  let df2 := move df1 in
+  let prev_diff := current (zero_grid c) df2 in
+  if negb (s_firstdiff s) then
+    (mkDS (move fl1) df2 true aff thresh1 bg1 wts1 bgframes1, false)
+  else if aff || prev_ffc then
+    (mkDS (move (set_as_oldest fl1)) df2 false aff thresh1 bg1 wts1 bgframes1, false)
+  else
+    (mkDS (move fl1) df2 true aff thresh1 bg1 wts1 bgframes1, has_motion c dg prev_diff).
+
+Lemma detect_split : forall c s f,
+    detect c s f =
+    post c s f (fst (fst (fst (pre c s f)))) (snd (fst (fst (pre c s f))))
+         (snd (fst (pre c s f))) (snd (pre c s f)).
+Proof.
+  intros c s f. unfold detect, pre, post.
+  destruct (d_dynamic c && negb (affected_by_ffc f)).
+  - destruct (update_background c s f (s_affected s)) as [[[bg' wts'] avg] changed].
+    cbn [fst snd]. reflexivity.
+  - cbn [fst snd]. reflexivity.
+Qed.
+
+(* the components of update_background *)
+Definition ub_bgi (s : dstate) (f : frame) (p : bool) (y x : nat) : Z :=
+  if replaces s f p (s_bgframes s + 1 =? 1) y x then gget (f_pix f) y x else gget (s_bg s) y x.
+
+Definition ub_bg (c : dcfg) (s : dstate) (f : frame) (p : bool) : grid :=
+  gbuild (d_h c) (d_w c) (fun y x => ub_bgi s f p (near_y c y) (near_x c x)).
+
+Definition ub_wts (c : dcfg) (s : dstate) (f : frame) (p : bool) : list (list f32) :=
+  if s_bgframes s + 1 =? 1 then s_wts s
+  else map (fun y => map (fun x =>
+         if interior c y x then
+           if replaces s f p false y x then f32_zero
+           else f32_add (wget (s_wts s) y x) f32_tenth
+         else wget (s_wts s) y x) (seq 0 (d_w c))) (seq 0 (d_h c)).
+
+Definition ub_avg (c : dcfg) (s : dstate) (f : frame) (p : bool) : f64 :=
+  let npix := f64_of_Z (Z.of_nat ((d_h c - d_edge c - d_edge c) * (d_w c - d_edge c - d_edge c))) in
+  fold_left (fun a yx => f64_add a (f64_div (f64_of_Z (ub_bgi s f p (fst yx) (snd yx))) npix))
+            (icoords c) f64_zero.
+
+Definition ub_changed (c : dcfg) (s : dstate) (f : frame) (p : bool) : bool :=
+  (s_bgframes s + 1 =? 1) || existsb (fun yx => replaces s f p false (fst yx) (snd yx)) (icoords c).
+
+Lemma update_background_split : forall c s f p,
+    update_background c s f p = (ub_bg c s f p, ub_wts c s f p, ub_avg c s f p, ub_changed c s f p).
+Proof. intros. reflexivity. Qed.
+
+(* ------------------------------------------------------------------ *)
+(* The relation between the two runs                                   *)
+(* ------------------------------------------------------------------ *)
+
+(* backgrounds agree on the interior, and everywhere if the interior is not empty *)
+Definition bg_rel (c : dcfg) (b1 b2 : grid) : Prop :=
+  (forall y x, interior c y x = true -> gget b1 y x = gget b2 y x) /\
+  (nonempty c -> b1 = b2).
+
+Lemma bg_rel_refl : forall c b, bg_rel c b b.
+Proof. intros c b; split; auto. Qed.
+
+Record srel (c : dcfg) (Rf : frame -> frame -> Prop) (s1 s2 : dstate) : Prop := mkSrel {
+  sr_fl : ring_rel Rf (s_floored s1) (s_floored s2);
+  sr_df : s_diffs s1 = s_diffs s2;
+  sr_fd : s_firstdiff s1 = s_firstdiff s2;
+  sr_af : s_affected s1 = s_affected s2;
+  sr_th : s_thresh s1 = s_thresh s2;
+  sr_bg : bg_rel c (s_bg s1) (s_bg s2);
+  sr_wt : s_wts s1 = s_wts s2;
+  sr_bf : s_bgframes s1 = s_bgframes s2
+}.
+
+Lemma dinit_rel : forall c (Rf : frame -> frame -> Prop), Rf (blank_frame c) (blank_frame c) -> srel c Rf (dinit c) (dinit c).
+Proof.
+  intros c Rf Hb. unfold dinit. constructor; cbn [s_floored s_diffs s_firstdiff s_affected s_thresh s_bg s_wts s_bgframes];
+    try reflexivity.
+  - apply new_ring_rel; exact Hb.
+  - apply bg_rel_refl.
+Qed.
+
+Lemma dreset_rel : forall c (Rf : frame -> frame -> Prop) s1 s2, srel c Rf s1 s2 -> srel c Rf (dreset s1) (dreset s2).
+Proof.
+  intros c Rf s1 s2 [Hfl Hdf Hfd Haf Hth Hbg Hwt Hbf]. unfold dreset.
+  constructor; cbn [s_floored s_diffs s_firstdiff s_affected s_thresh s_bg s_wts s_bgframes];
+    try assumption; try reflexivity.
+  - apply reset_rel; exact Hfl.
+  - rewrite Hdf; reflexivity.
+Qed.
+
+(* the part of Detect after the background update *)
+Lemma post_rel : forall c (Rf : frame -> frame -> Prop) s1 s2 f g bg1 bg2 wts n t,
+    srel c Rf s1 s2 -> Rf f g ->
+    Rf (blank_frame c) (blank_frame c) ->
+    affected_by_ffc f = affected_by_ffc g ->
+    (forall a b, Rf a b -> diff_grid c t (f_pix f) (f_pix a) = diff_grid c t (f_pix g) (f_pix b)) ->
+    bg_rel c bg1 bg2 ->
+    srel c Rf (fst (post c s1 f bg1 wts n t)) (fst (post c s2 g bg2 wts n t)) /\
+    snd (post c s1 f bg1 wts n t) = snd (post c s2 g bg2 wts n t).
+Proof.
+  intros c Rf s1 s2 f g bg1 bg2 wts n t [Hfl Hdf Hfd Haf Hth Hbg Hwt Hbf] Hfg Hblank Haff Hdg Hbg'.
+  assert (Hput : ring_rel Rf (put (s_floored s1) f) (put (s_floored s2) g))
+    by (apply put_rel; assumption).
+  assert (Hcmp : Rf (oldest_slot (blank_frame c) (put (s_floored s1) f))
+                    (oldest_slot (blank_frame c) (put (s_floored s2) g)))
+    by (apply oldest_slot_rel; assumption).
+  apply Hdg in Hcmp.
+  unfold post. rewrite Hcmp, Hdf, Hfd, Haf, Haff.
+  set (dg := diff_grid c t (f_pix g) (f_pix (oldest_slot (blank_frame c) (put (s_floored s2) g)))).
+  destruct (negb (s_firstdiff s2)); [|destruct (affected_by_ffc g || s_affected s2)];
+    cbn [fst snd]; (split; [|reflexivity]);
+    constructor; cbn [s_floored s_diffs s_firstdiff s_affected s_thresh s_bg s_wts s_bgframes];
+    try reflexivity; try assumption.
+  - apply move_rel; exact Hput.
+  - apply move_rel, set_as_oldest_rel; exact Hput.
+  - apply move_rel; exact Hput.
+Qed.
+
+(* ------------------------------------------------------------------ *)
+(* Border pixels                                                       *)
+(* ------------------------------------------------------------------ *)
+
+Lemma fie_refl : forall c f, frame_interior_eq c f f.
+Proof. intros c f. repeat split. Qed.
+
+Lemma fie_affected : forall c f g, frame_interior_eq c f g -> affected_by_ffc f = affected_by_ffc g.
+Proof. intros c f g (H1 & H2 & _). unfold affected_by_ffc. rewrite H1, H2. reflexivity. Qed.
+
+Lemma fie_diff_grid : forall c t f g a b,
+    frame_interior_eq c f g -> frame_interior_eq c a b ->
+    diff_grid c t (f_pix f) (f_pix a) = diff_grid c t (f_pix g) (f_pix b).
+Proof.
+  intros c t f g a b (_ & _ & Hfg) (_ & _ & Hab). unfold diff_grid.
+  apply gbuild_ext. intros y x _ _.
+  destruct (interior c y x) eqn:Hi; [|reflexivity].
+  rewrite (Hfg y x Hi), (Hab y x Hi). reflexivity.
+Qed.
+
+Section Border.
+  Variable c : dcfg.
+  Variables s1 s2 : dstate.
+  Variables f g : frame.
+  Hypothesis HS : srel c (frame_interior_eq c) s1 s2.
+  Hypothesis HF : frame_interior_eq c f g.
+
+  Lemma replaces_rel : forall p sd y x, interior c y x = true ->
+      replaces s1 f p sd y x = replaces s2 g p sd y x.
+  Proof.
+    intros p sd y x Hi. destruct HS as [_ _ _ _ _ [Hbg _] Hwt _]. destruct HF as (_ & _ & Hpix).
+    unfold replaces. rewrite (Hpix y x Hi), Hwt, (Hbg y x Hi). reflexivity.
+  Qed.
+
+  Lemma ub_bgi_rel : forall p y x, interior c y x = true ->
+      ub_bgi s1 f p y x = ub_bgi s2 g p y x.
+  Proof.
+    intros p y x Hi. unfold ub_bgi. rewrite (replaces_rel p _ y x Hi).
+    destruct HS as [_ _ _ _ _ [Hbg _] _ Hbf]. destruct HF as (_ & _ & Hpix).
+    rewrite Hbf, (Hpix y x Hi), (Hbg y x Hi). reflexivity.
+  Qed.
+
+  Lemma ub_bg_rel : forall p, bg_rel c (ub_bg c s1 f p) (ub_bg c s2 g p).
+  Proof.
+    intros p. split.
+    - intros y x Hi. pose proof (interior_bounds c y x Hi) as Hb.
+      unfold ub_bg. rewrite !gget_gbuild by lia.
+      destruct (near_id c y x Hi) as [-> ->]. apply ub_bgi_rel; exact Hi.
+    - intros Hne. unfold ub_bg. apply gbuild_ext. intros y x _ _.
+      apply ub_bgi_rel. apply near_interior; exact Hne.
+  Qed.
+
+  Lemma ub_wts_rel : forall p, ub_wts c s1 f p = ub_wts c s2 g p.
+  Proof.
+    intros p. unfold ub_wts.
+    pose proof (sr_wt _ _ _ _ HS) as Hwt. pose proof (sr_bf _ _ _ _ HS) as Hbf.
+    rewrite Hbf, Hwt. destruct (s_bgframes s2 + 1 =? 1); [reflexivity|].
+    apply map_ext_in. intros y _. apply map_ext_in. intros x _.
+    destruct (interior c y x) eqn:Hi; [|reflexivity].
+    rewrite (replaces_rel p false y x Hi). reflexivity.
+  Qed.
+
+  Lemma ub_avg_rel : forall p, ub_avg c s1 f p = ub_avg c s2 g p.
+  Proof.
+    intros p. unfold ub_avg. apply fold_left_ext_in. intros a yx Hin.
+    rewrite (ub_bgi_rel p _ _ (in_icoords c yx Hin)). reflexivity.
+  Qed.
+
+  Lemma ub_changed_rel : forall p, ub_changed c s1 f p = ub_changed c s2 g p.
+  Proof.
+    intros p. unfold ub_changed. rewrite (sr_bf _ _ _ _ HS). f_equal.
+    apply existsb_ext_in. intros yx Hin. apply replaces_rel. apply in_icoords; exact Hin.
+  Qed.
+
+  Lemma pre_rel :
+      bg_rel c (fst (fst (fst (pre c s1 f)))) (fst (fst (fst (pre c s2 g)))) /\
+      snd (fst (fst (pre c s1 f))) = snd (fst (fst (pre c s2 g))) /\
+      snd (fst (pre c s1 f)) = snd (fst (pre c s2 g)) /\
+      snd (pre c s1 f) = snd (pre c s2 g).
+  Proof.
+    unfold pre. rewrite !update_background_split, (fie_affected c f g HF).
+    rewrite (sr_af _ _ _ _ HS).
+    destruct (d_dynamic c && negb (affected_by_ffc g)); cbn [fst snd].
+    - rewrite ub_wts_rel, ub_avg_rel, ub_changed_rel, (sr_bf _ _ _ _ HS), (sr_th _ _ _ _ HS).
+      split; [apply ub_bg_rel|]. split; [reflexivity|]. split; reflexivity.
+    - destruct HS as [_ _ _ _ Hth Hbg Hwt Hbf].
+      split; [exact Hbg|]. split; [exact Hwt|]. split; [exact Hbf|exact Hth].
+  Qed.
+
+  Lemma detect_border_rel :
+      srel c (frame_interior_eq c) (fst (detect c s1 f)) (fst (detect c s2 g)) /\
+      snd (detect c s1 f) = snd (detect c s2 g).
+  Proof.
+    rewrite !detect_split. destruct pre_rel as (Hbg & Hwt & Hn & Ht).
+    rewrite Hwt, Hn, Ht. apply post_rel; try assumption.
+    - apply fie_refl.
+    - apply (fie_affected c); exact HF.
+    - intros a b Hab. apply fie_diff_grid; assumption.
+  Qed.
+End Border.
+
+(* ------------------------------------------------------------------ *)
+(* Streams                                                             *)
+(* ------------------------------------------------------------------ *)
+
+Lemma run_rel : forall c (Rf : frame -> frame -> Prop) (Inv : dstate -> dstate -> Prop),
+    (forall s1 s2 f g, Inv s1 s2 -> Rf f g ->
+        Inv (fst (detect c s1 f)) (fst (detect c s2 g)) /\ snd (detect c s1 f) = snd (detect c s2 g)) ->
+    (forall s1 s2, Inv s1 s2 -> Inv (dreset s1) (dreset s2)) ->
+    (forall s1 s2, Inv s1 s2 -> s_thresh s1 = s_thresh s2) ->
+    forall evs1 evs2, stream_rel Rf evs1 evs2 ->
+    forall s1 s2, Inv s1 s2 ->
+      drun c s1 evs1 = drun c s2 evs2 /\ Inv (dfinal c s1 evs1) (dfinal c s2 evs2).
+Proof.
+  intros c Rf Inv Hdet Hres Hth evs1 evs2 H.
+  induction H as [|e1 e2 l1 l2 He Hl IH]; intros s1 s2 HI.
+  - cbn [drun dfinal]. split; [reflexivity|exact HI].
+  - destruct e1 as [f|], e2 as [g|]; try contradiction.
+    + destruct (Hdet s1 s2 f g HI He) as [HI' Hv].
+      cbn [drun dfinal].
+      destruct (detect c s1 f) as [s1' m1]. destruct (detect c s2 g) as [s2' m2].
+      cbn [fst snd] in *. subst m2.
+      destruct (IH s1' s2' HI') as [IH1 IH2].
+      rewrite IH1, (Hth _ _ HI'). split; [reflexivity|exact IH2].
+    + pose proof (Hres s1 s2 HI) as HI'.
+      cbn [drun dfinal].
+      destruct (IH _ _ HI') as [IH1 IH2].
+      rewrite IH1, (Hth _ _ HI'). split; [reflexivity|exact IH2].
+Qed.
+
+Lemma border_run : forall c evs1 evs2,
+    stream_rel (frame_interior_eq c) evs1 evs2 ->
+    drun c (dinit c) evs1 = drun c (dinit c) evs2 /\
+    srel c (frame_interior_eq c) (dfinal c (dinit c) evs1) (dfinal c (dinit c) evs2).
+Proof.
+  intros c evs1 evs2 H.
+  apply (run_rel c (frame_interior_eq c) (srel c (frame_interior_eq c))); try assumption.
+  - intros s1 s2 f g HS HF. apply detect_border_rel; assumption.
+  - intros s1 s2 HS. apply dreset_rel; exact HS.
+  - intros s1 s2 HS. apply (sr_th _ _ _ _ HS).
+  - apply dinit_rel, fie_refl.
+Qed.
+
 (* verdicts and thresholds after every event are equal *)
 Theorem border_noninterference : forall c evs1 evs2,
     stream_rel (frame_interior_eq c) evs1 evs2 ->
     drun c (dinit c) evs1 = drun c (dinit c) evs2.
-Admitted.
+Proof. intros c evs1 evs2 H. apply (border_run c evs1 evs2 H). Qed.
 
-(* ... and so is the background, everywhere (its border is a function of its interior) *)
+(* ... and so is the background, everywhere (its border is a function of its interior).
+   This needs a non-empty interior: with an empty interior near_y/near_x point at a
+   non-interior pixel, which a seeding frame copies into the background (see
+   border_bg_needs_interior below; border_noninterference itself holds regardless). *)
 Theorem border_noninterference_bg : forall c evs1 evs2,
+    (2 * d_edge c < d_w c)%nat /\ (2 * d_edge c < d_h c)%nat ->
     stream_rel (frame_interior_eq c) evs1 evs2 ->
     s_bg (dfinal c (dinit c) evs1) = s_bg (dfinal c (dinit c) evs2).
-Admitted.
+Proof.
+  intros c evs1 evs2 Hne H. destruct (border_run c evs1 evs2 H) as [_ HS].
+  apply (sr_bg _ _ _ _ HS). exact Hne.
+Qed.
+
+(* the premise cannot be dropped: 1x1 frame, edge 1, dynamic threshold *)
+Example border_bg_needs_interior :
+  let c := mkD 1 1 1 1 false 0 0 false true 100 0 0 0 in
+  let e1 := [DFrame (mkF [[5]] 10000000000 0)] in
+  let e2 := [DFrame (mkF [[7]] 10000000000 0)] in
+  stream_rel (frame_interior_eq c) e1 e2 /\
+  s_bg (dfinal c (dinit c) e1) <> s_bg (dfinal c (dinit c) e2).
+Proof.
+  split.
+  - constructor; [|constructor]. split; [reflexivity|]. split; [reflexivity|].
+    intros y x H. apply interior_bounds in H. cbn [d_edge d_h d_w] in H. lia.
+  - vm_compute. discriminate.
+Qed.
+
+(* without the premise (possibly empty interior): the backgrounds agree on the interior *)
+Theorem border_noninterference_bg_interior : forall c evs1 evs2,
+    stream_rel (frame_interior_eq c) evs1 evs2 ->
+    forall y x, interior c y x = true ->
+      gget (s_bg (dfinal c (dinit c) evs1)) y x = gget (s_bg (dfinal c (dinit c) evs2)) y x.
+Proof.
+  intros c evs1 evs2 H. destruct (border_run c evs1 evs2 H) as [_ HS].
+  apply (sr_bg _ _ _ _ HS).
+Qed.
 
 (* fixed threshold: frames agree on telemetry and on every interior pixel except where both
    values are at or below the threshold *)
@@ -37,8 +497,72 @@ Definition frame_cold_eq (c : dcfg) (f g : frame) : Prop :=
     gget (f_pix f) y x = gget (f_pix g) y x \/
     (gget (f_pix f) y x <= d_thresh0 c /\ gget (f_pix g) y x <= d_thresh0 c).
 
+Lemma floor_to_cold : forall t a b, a = b \/ (a <= t /\ b <= t) -> floor_to t a = floor_to t b.
+Proof.
+  intros t a b [->|[Ha Hb]]; [reflexivity|]. unfold floor_to.
+  destruct (Z.ltb_spec a t), (Z.ltb_spec b t); lia.
+Qed.
+
+Lemma fce_refl : forall c f, frame_cold_eq c f f.
+Proof. intros c f. repeat split. intros; left; reflexivity. Qed.
+
+Lemma fce_affected : forall c f g, frame_cold_eq c f g -> affected_by_ffc f = affected_by_ffc g.
+Proof. intros c f g (H1 & H2 & _). unfold affected_by_ffc. rewrite H1, H2. reflexivity. Qed.
+
+Lemma fce_diff_grid : forall c f g a b,
+    frame_cold_eq c f g -> frame_cold_eq c a b ->
+    diff_grid c (d_thresh0 c) (f_pix f) (f_pix a) = diff_grid c (d_thresh0 c) (f_pix g) (f_pix b).
+Proof.
+  intros c f g a b (_ & _ & Hfg) (_ & _ & Hab). unfold diff_grid.
+  apply gbuild_ext. intros y x _ _.
+  destruct (interior c y x) eqn:Hi; [|reflexivity].
+  rewrite (floor_to_cold _ _ _ (Hfg y x Hi)), (floor_to_cold _ _ _ (Hab y x Hi)). reflexivity.
+Qed.
+
+Lemma pre_fixed : forall c s f, d_dynamic c = false ->
+    pre c s f = (s_bg s, s_wts s, s_bgframes s, s_thresh s).
+Proof. intros c s f Hd. unfold pre. rewrite Hd. reflexivity. Qed.
+
+Lemma post_thresh : forall c s f bg w n t, s_thresh (fst (post c s f bg w n t)) = t.
+Proof.
+  intros. unfold post.
+  destruct (negb (s_firstdiff s)); [|destruct (affected_by_ffc f || s_affected s)]; reflexivity.
+Qed.
+
+Definition cold_inv (c : dcfg) (s1 s2 : dstate) : Prop :=
+  srel c (frame_cold_eq c) s1 s2 /\ s_thresh s1 = d_thresh0 c.
+
+Lemma detect_cold_rel : forall c s1 s2 f g,
+    d_dynamic c = false ->
+    cold_inv c s1 s2 -> frame_cold_eq c f g ->
+    cold_inv c (fst (detect c s1 f)) (fst (detect c s2 g)) /\
+    snd (detect c s1 f) = snd (detect c s2 g).
+Proof.
+  intros c s1 s2 f g Hd [HS Ht] HF. unfold cold_inv.
+  rewrite !detect_split, !pre_fixed by exact Hd. cbn [fst snd].
+  rewrite post_thresh.
+  pose proof HS as [_ _ _ _ Hth Hbg Hwt Hbf]. rewrite <- Hwt, <- Hbf, <- Hth, Ht.
+  assert (H : srel c (frame_cold_eq c)
+                   (fst (post c s1 f (s_bg s1) (s_wts s1) (s_bgframes s1) (d_thresh0 c)))
+                   (fst (post c s2 g (s_bg s2) (s_wts s1) (s_bgframes s1) (d_thresh0 c))) /\
+              snd (post c s1 f (s_bg s1) (s_wts s1) (s_bgframes s1) (d_thresh0 c)) =
+              snd (post c s2 g (s_bg s2) (s_wts s1) (s_bgframes s1) (d_thresh0 c))).
+  { apply post_rel; try assumption.
+    - apply fce_refl.
+    - apply (fce_affected c); exact HF.
+    - intros a b Hab. apply fce_diff_grid; assumption. }
+  destruct H as [H1 H2]. split; [split; [exact H1|reflexivity]|exact H2].
+Qed.
+
 Theorem cold_noninterference : forall c evs1 evs2,
     d_dynamic c = false ->
     stream_rel (frame_cold_eq c) evs1 evs2 ->
     drun c (dinit c) evs1 = drun c (dinit c) evs2.
-Admitted.
+Proof.
+  intros c evs1 evs2 Hd H.
+  apply (run_rel c (frame_cold_eq c) (cold_inv c)) with (evs1 := evs1) (evs2 := evs2); try assumption.
+  - intros s1 s2 f g HI HF. apply detect_cold_rel; assumption.
+  - intros s1 s2 [HS Ht]. split; [apply dreset_rel; exact HS|exact Ht].
+  - intros s1 s2 [HS _]. apply (sr_th _ _ _ _ HS).
+  - split; [apply dinit_rel, fce_refl|reflexivity].
+Qed.
